@@ -311,6 +311,8 @@ type peer struct {
 	answered atomic.Int64
 	dupOf    func(k int) int // number of duplicates of request nest:k to inject while its handler waits
 	reqs     map[int]ref.Msg
+	nonOuter bool
+	separate bool
 }
 
 func (p *peer) step() bool {
@@ -355,7 +357,7 @@ func (p *peer) step() bool {
 				}
 				if k > 1 {
 					p.pending[k] = m
-					r := p.e.request(fmt.Sprintf("nest:%d", k-1), true)
+					r := p.e.request(fmt.Sprintf("nest:%d", k-1), !p.nonOuter)
 					p.reqs[k-1] = r
 					p.e.inject(r)
 					continue
@@ -381,6 +383,9 @@ func (p *peer) respond(get ref.Msg, body string) {
 	if p.e.kind == "udp" && get.Type == 1 {
 		// a Non-confirmable request is answered with a Non-confirmable response under a message ID of the peer's own
 		p.e.inject(ref.Msg{Type: 1, Code: 0x45, MID: uint16(50000 + p.e.peerMID.Add(1)), Token: get.Token, Payload: []byte(body)})
+	} else if p.e.kind == "udp" && p.separate {
+		p.e.inject(ref.Msg{Type: 2, Code: 0, MID: get.MID})
+		p.e.inject(ref.Msg{Type: 0, Code: 0x45, MID: uint16(50000 + p.e.peerMID.Add(1)), Token: get.Token, Payload: []byte(body)})
 	} else if p.e.kind == "udp" {
 		p.e.inject(ref.Msg{Type: 2, Code: 0x45, MID: get.MID, Token: get.Token, Payload: []byte(body)})
 	} else {
@@ -415,6 +420,11 @@ type ccase struct {
 	FirstOp   string `json:"handlers_first_blocking_operation,omitempty"`
 	// MIDEdge: the peer's first request carries message ID 65535 while the connection's own next message ID is 0
 	MIDEdge bool `json:"peer_mid_65535_own_mid_0,omitempty"`
+	// NonOuter: the requests whose handlers nest are non-confirmable (and duplicated like confirmable ones: RFC 7252 4.3
+	// allows copies of a NON message); Separate: the peer answers confirmable requests of the connection with an empty
+	// acknowledgement first and the response as a message of its own - it travels through the receive queue
+	NonOuter bool `json:"nesting_requests_non_confirmable,omitempty"`
+	Separate bool `json:"peer_answers_separately,omitempty"`
 }
 
 // pureServer: handlers return at once, nothing else happens: exactly once, in arrival order.
@@ -655,7 +665,7 @@ func nested(rec *vr.Rec, c ccase, rnd *rand.Rand) {
 	if c.OwnMID {
 		e.mid.Store(30000) // the first injected request gets MID 30001 = the connection's first own MID
 	}
-	p := &peer{e: e, pending: map[int]ref.Msg{}, reqs: map[int]ref.Msg{}}
+	p := &peer{e: e, pending: map[int]ref.Msg{}, reqs: map[int]ref.Msg{}, nonOuter: c.NonOuter, separate: c.Separate}
 	if c.Dups > 0 && c.Kind == "udp" {
 		p.dupOf = func(int) int { return c.Dups }
 	}
@@ -685,7 +695,7 @@ func nested(rec *vr.Rec, c ccase, rnd *rand.Rand) {
 	total := 0
 	// (a confirmable request whose message ID is close to the connection's own counter makes the connection move its counter
 	// away; the coincidences under test need a non-confirmable outer request)
-	first := e.request(fmt.Sprintf("nest:%d", c.Depth), c.Kind != "udp" || !(c.OwnMID || c.MIDEdge))
+	first := e.request(fmt.Sprintf("nest:%d", c.Depth), c.Kind != "udp" || !(c.OwnMID || c.MIDEdge || c.NonOuter))
 	p.reqs[c.Depth] = first
 	e.inject(first)
 	total++
@@ -845,7 +855,9 @@ func TestRun(t *testing.T) {
 				if kind == "udp" {
 					for dups := 1; dups <= 3; dups++ {
 						cases = append(cases, ccase{Workload: "nested", Kind: kind, Queue: q, Depth: depth, N: rnd.Intn(5), Dups: dups, Clients: rnd.Intn(2)})
+						cases = append(cases, ccase{Workload: "nested", Kind: kind, Queue: q, Depth: depth, N: rnd.Intn(5), Dups: dups, NonOuter: dups != 2, Separate: true})
 					}
+					cases = append(cases, ccase{Workload: "nested", Kind: kind, Queue: q, Depth: depth, N: rnd.Intn(5), Dups: 2, NonOuter: true, NonGets: true})
 					cases = append(cases, ccase{Workload: "nested", Kind: kind, Queue: q, Depth: depth, N: rnd.Intn(5), OwnMID: true})
 					cases = append(cases, ccase{Workload: "nested", Kind: kind, Queue: q, Depth: depth, N: rnd.Intn(5), MIDEdge: true})
 					cases = append(cases, ccase{Workload: "nested", Kind: kind, Queue: q, Depth: depth, N: rnd.Intn(5), MIDEdge: true, NonGets: true})
